@@ -32,7 +32,9 @@ RULE = ('cases from one PRNG: random fibre (length 0.1-300 km in km or m, scalar
         'per-frequency tables listed in ascending / descending / shuffled frequency order, effective area and/or gamma or neither, '
         'reference wavelength/frequency/default, connector losses, padding) x random non-overlapping comb on the 6.25 GHz '
         'grid (1-120 channels quick, -400 thorough; uniform, mixed baud/slot/power/gaps, mixed power only); ~12 % malformed '
-        '(loss table not covering the comb, overlapping slots, baud rate above slot width). A case is non-trivial when it '
+        '(loss table not covering the comb, overlapping slots, baud rate above slot width); ~15 % sequences of 2-4 different '
+        'combs (same channel count, first/last frequency and first baud rate; interior baud rates / frequencies / powers '
+        'differ; also A, B, A) evaluated in succession on ONE Fiber object. A case is non-trivial when it '
         'has at least 2 channels (SPM and XPM weights both used) and was accepted; distinct = canonical JSON of the case')
 MODEL_SCOPE = ('modelled: NliSolver.compute_nli (gn_model_analytic branch), _gn_analytic, _psi, effective_length, '
                'Fiber.loss_coef_func/alpha/beta2 (scalar, slope and table branches)/gamma, FiberParams reference '
@@ -54,7 +56,51 @@ TRUSTED = ['HasPi Float = 3.141592653589793 (the binary64 value of numpy.pi); th
 SIM = {'nli_params': {'method': 'gn_model_analytic'}, 'raman_params': {'flag': False}}
 
 
+def gen_sequence(rng, tier, widen):
+    """2-4 DIFFERENT combs evaluated in succession on ONE Fiber object. Every later comb shares with the first one the
+    channel count, the first and last carrier frequency and the first channel's baud rate, and differs in interior baud
+    rates / interior carrier frequencies / powers (also A, B, A): no evaluation may depend on the element's history."""
+    n = rng.choice([3, 4, 5, 8, rng.randint(3, 40 if tier == 'quick' else 96)])
+    slot = rng.choice([75e9, 100e9, 150e9])
+    bauds = [x for x in (25e9, 32e9, 45e9, 56e9, 64e9, 69e9) if x <= slot - 12.5e9]
+    start = rng.choice([186.0e12, 191.3e12, 193.1e12])
+    stretch = rng.choice([1, 1, 2])                       # free grid positions between first and last channel
+    npos = (n - 1) * stretch + 1
+    b0 = rng.choice(bauds)
+    uniform = rng.random() < 0.6
+
+    def comb(kind):
+        pos = [0] + sorted(rng.sample(range(1, npos - 1), n - 2)) + [npos - 1] if stretch > 1 and 'f' in kind \
+            else [i * stretch for i in range(n)]
+        fs = [start + slot / 2 + k * slot for k in pos]
+        if 'f' in kind and stretch == 1:
+            # interior carriers moved inside their own slot (baud rate leaves room)
+            fs = [f + (rng.choice([-6.25e9, 6.25e9, 0.0]) if 0 < i < n - 1 else 0.0) for i, f in enumerate(fs)]
+        bs = [b0] * n if (uniform and 'b' not in kind) else [b0] + [rng.choice(bauds) for _ in range(n - 1)]
+        if 'b' in kind:
+            bs = [b0] + [rng.choice([x for x in bauds if x != b0] or bauds) if rng.random() < 0.6 else b0
+                         for _ in range(n - 1)]
+            if all(x == b0 for x in bs):
+                bs[1] = next((x for x in bauds if x != b0), b0)
+        p0 = round(rng.uniform(-4, 4), 2)
+        ps = [p0] * n if 'p' not in kind else [round(rng.uniform(-8, 8), 2) for _ in range(n)]
+        # declared slot width 12.5 GHz narrower than the grid spacing: room for the +-6.25 GHz carrier moves
+        return {'style': 'sequence', 'f': fs, 'b': bs, 'slot': [slot - 12.5e9] * n, 'p_dbm': ps}
+
+    first = comb('')
+    k = rng.choice([2, 2, 3, 4])
+    combs = [first]
+    for _ in range(k - 1):
+        combs.append(comb(rng.choice(['b', 'b', 'f', 'bf', 'bp', 'p', 'fp'])))
+    if rng.random() < 0.4:
+        combs = (combs + [copy.deepcopy(first)])[:4] if len(combs) < 4 else combs[:3] + [copy.deepcopy(first)]
+    fib = FB.gen_fibre(rng, first['f'][0] - 1e9, first['f'][-1] + 1e9, widen)
+    return {'kind': 'sequence', 'fibre': fib, 'combs': combs}
+
+
 def gen(rng, tier, widen=False):
+    if rng.random() < 0.15:
+        return gen_sequence(rng, tier, widen)
     nmax = 120 if tier == 'quick' else 400
     if tier == 'thorough' and rng.random() < 0.8:
         nmax = 120
@@ -108,7 +154,60 @@ def run(case, drv):
         return _run(case, drv)
 
 
+def _run_sequence(case, drv):
+    """one Fiber object, several combs in a row: compute_nli and Fiber.__call__ of EVERY evaluation against the model and
+    against the independent closed form of its own comb"""
+    from gnpy.core.science_utils import NliSolver
+    res = Result()
+    fibp = case['fibre']
+    fj = FB.fibre_json(fibp)
+    fiber = FB.mk_fiber(fibp)
+    L = FB.length_m(fibp)
+    att = fibp['con_in'] + fibp.get('att_in', 0)
+    for step, comb in enumerate(case['combs']):
+        n = len(comb['f'])
+        si = _si(comb)
+        freq = [float(x) for x in si.frequency]
+        baud = [float(x) for x in si.baud_rate]
+        pw = [float(x) for x in si.pch]
+        al = [FB.alpha_ref(fibp, f) for f in freq]
+        b2 = [FB.beta2_ref(fibp, f) for f in freq]
+        ga = [FB.gamma_ref(fibp, f) for f in freq]
+        # alternate the entry point: the solver directly / the element's __call__ (which attenuates first)
+        impl = [float(x) for x in NliSolver.compute_nli(si, None, fiber)]
+        ans = drv.ask('c03.nli', fibre=fj, f=fl(freq), b=fl(baud), p=fl(pw))
+        res.cmp_floats(f'NliSolver.compute_nli[evaluation {step + 1} on the same Fiber]', impl,
+                       [b2f(x) for x in ans['nli']], abs_=0.0)
+        want = FB.gn_closed_form(L, freq, baud, pw, al, b2, ga)
+        for i in range(n):
+            if abs(impl[i] - want[i]) > 1e-8 * abs(want[i]):
+                res.fail(f'history: evaluation {step + 1} of {len(case["combs"])} on the same Fiber: channel {i}: compute_nli '
+                         f'{impl[i]:.12e} W, GN closed form of this comb {want[i]:.12e} W', channel=i, step=step)
+                break
+        out = fiber(_si(comb))
+        ans2 = drv.ask('c03.ratio', fibre=fj, att_in_db=f2b(att), f=fl(freq), b=fl(baud), p=fl(pw))
+        res.cmp_floats(f'Fiber.__call__ nli_ratio[evaluation {step + 1} on the same Fiber]', out._nli_ratio,
+                       [b2f(x) for x in ans2['ratio']], abs_=0.0)
+        pin = [x * 10 ** (-att / 10) for x in pw]
+        want2 = FB.gn_closed_form(L, freq, baud, pin, al, b2, ga)
+        for i in range(n):
+            if abs(out._nli_ratio[i] - want2[i] / pin[i]) > 1e-8 * want2[i] / pin[i]:
+                res.fail(f'history after Fiber.__call__: evaluation {step + 1} on the same Fiber: channel {i}: NLI share '
+                         f'{out._nli_ratio[i]:.10e}, closed form of this comb {want2[i] / pin[i]:.10e}', channel=i, step=step)
+                break
+    combs = case['combs']
+    res.nontrivial = True
+    res.stats.update({'kind_sequence': 1, f'sequence_len_{len(combs)}': 1, 'sequence_channels': len(combs[0]['f']),
+                      'sequence_returns_to_first': int(len(combs) > 2 and combs[-1] == combs[0]),
+                      'sequence_interior_baud_changes': int(any(c['b'] != combs[0]['b'] for c in combs)),
+                      'sequence_interior_frequency_changes': int(any(c['f'] != combs[0]['f'] for c in combs)),
+                      'sequence_power_changes': int(any(c['p_dbm'] != combs[0]['p_dbm'] for c in combs))})
+    return res
+
+
 def _run(case, drv):
+    if case['kind'] == 'sequence':
+        return _run_sequence(case, drv)
     from gnpy.core.science_utils import NliSolver
     res = Result()
     fibp, comb = case['fibre'], case['comb']
@@ -253,6 +352,28 @@ def _pw(comb):
 
 
 def shrink_candidates(case):
+    if case['kind'] == 'sequence':
+        k = len(case['combs'])
+        if k > 2:
+            for i in range(k):
+                c = copy.deepcopy(case)
+                del c['combs'][i]
+                yield c
+        n = len(case['combs'][0]['f'])
+        for i in range(1, n - 1):
+            if n > 3:
+                c = copy.deepcopy(case)
+                for cb in c['combs']:
+                    for key in ('f', 'b', 'slot', 'p_dbm'):
+                        del cb[key][i]
+                yield c
+        for key in ('lumped_losses', 'att_in', 'dispersion_slope', 'ref_wavelength', 'ref_frequency', 'effective_area',
+                    'gamma'):
+            if key in case['fibre']:
+                c = copy.deepcopy(case)
+                del c['fibre'][key]
+                yield c
+        return
     comb = case['comb']
     n = len(comb['f'])
     if n > 1:
